@@ -398,7 +398,7 @@ def gen_ers_world(rng, stats=None, force=None):
         stats.setdefault("node_classes", {})
         for k, v in classes.items():
             stats["node_classes"][k] = stats["node_classes"].get(k, 0) + v
-    return {"kind": "world", "objects": objs, "ops": ops, "options": {"affinity": affinity_mode, "default_mode": "auto"}}
+    return {"kind": "world", "objects": objs, "ops": ops, "options": {"affinity": affinity_mode, "default_mode": "auto", "list_order": 1 if rng.random() < 0.3 else 0}}
 
 
 def gen_eds_world(rng, stats=None, force=None):
@@ -532,4 +532,4 @@ def gen_eds_world(rng, stats=None, force=None):
     if stats is not None:
         stats.setdefault("eds_scenarios", {})
         stats["eds_scenarios"][scenario] = stats["eds_scenarios"].get(scenario, 0) + 1
-    return {"kind": "world", "objects": objs, "ops": ops, "options": {"affinity": False, "default_mode": rng.choice(["auto", "auto", "manual"])}}
+    return {"kind": "world", "objects": objs, "ops": ops, "options": {"affinity": False, "default_mode": rng.choice(["auto", "auto", "manual"]), "list_order": 1 if rng.random() < 0.3 else 0}}
